@@ -112,6 +112,7 @@ def explore(lay, ops, budget, ordered=False, procs=16, max_states=2_000_000):
     problems = []
     fails = []
     replay_fails = []
+    labelled = []        # (pre-state, marking operation, post-state): the graph itself carries no operation labels
     out_of_model = 0
     frontier = [()]
     first = True
@@ -146,6 +147,8 @@ def explore(lay, ops, budget, ordered=False, procs=16, max_states=2_000_000):
                         continue
                     pid = ident(s["post"])
                     edges.add((sid, pid))
+                    if s["op"][0].startswith("mark"):
+                        labelled.append((r["order"], s["op"], s["post"]))
                     if pid not in seen:
                         seen[pid] = (r["path"] + (s["op"],), s["post"])
                         # expand only states within the primitive-bisection budget
@@ -171,7 +174,7 @@ def explore(lay, ops, budget, ordered=False, procs=16, max_states=2_000_000):
         if pool:
             pool.close()
             pool.join()
-    return {"states": seen, "events": events, "edges": edges, "problems": problems, "fails": fails, "replay_fails": replay_fails,
+    return {"states": seen, "events": events, "edges": edges, "problems": problems, "fails": fails, "replay_fails": replay_fails, "labelled": labelled,
             "out_of_model": out_of_model}
 
 
